@@ -4,6 +4,7 @@ C04 ⇄ C05 bridge, part 1: the invariant of `TableWriter` / `ObjectStore` (Mode
 -/
 import FontVerif.Lemmas.TableWriterDefs
 set_option linter.unusedVariables false
+set_option linter.unusedSimpArgs false
 namespace FontVerif.TableWriter
 open FontVerif FontVerif.Graph
 
